@@ -425,7 +425,27 @@ pub fn meta(prop: &str) -> Meta {
     Meta {
         worlds,
         rule: "each run: seed -> explicit trace (configuration, model specs, operation list, fault placements) -> deterministic executor against the real library with reference models as oracles; a run is non-trivial if its trace has >= 2 operations; distinct = distinct trace hash (the set is capped at 150k per worker process, so the number is a conservative under-count for big batches)".to_string(),
-        state_measure: "hash of (bit length of the coder head, bulk empty?, kind of last operation, (Word,State) configuration, min(LIFO depth, 8)) for the ans world".to_string(),
+        state_measure: {
+            let mut parts: Vec<&str> = Vec::new();
+            for wd in worlds_for(prop) {
+                let s = match *wd {
+                    "ans" => "ans: (bit length of the coder head, bulk empty?, kind of last operation, (Word,State) configuration, min(LIFO depth, 8))",
+                    "range" => "range: (min(num_inverted, 4), bit length of range, top two bits of lower's most significant word, (Word,State) configuration)",
+                    "bits" => "bits: (bit length mod 2*WordBits, word type, stack/queue)",
+                    "backend" => "backend: (min(pos, 6), min(len - pos, 6), word type, object kind incl. reversed or not)",
+                    "chain" => "chain: ((Word,State) configuration, initial precision, min(symbols decoded, 20), min(precision changes, 4))",
+                    "skew" => "skew: (producer, twin and consumer representation, configuration, precision)",
+                    "garbage" => "garbage: (configuration, coder kind, data origin / fault kind, min(data length, 12))",
+                    "poison" => "poison: (no state measure; fault kinds are counted)",
+                    "diag" => "diag: ((Probability, PRECISION) pair, model kind, min(support size, 40))",
+                    _ => "",
+                };
+                if !s.is_empty() && !parts.contains(&s) {
+                    parts.push(s);
+                }
+            }
+            format!("distinct hashes of the per-world abstract state after every operation - {}", parts.join("; "))
+        },
         stubs: vec!["Store (simulator-owned word store behind the public backend traits)", "TableModel / FnModel / Dyn (harness entropy models behind the public model traits)"],
         assumptions: vec![
             "entropy models handed to the coders are well-formed: TableModel is correct by construction; library-built models are taken as they are (their validity is property C03, not decided here)".to_string(),
